@@ -259,16 +259,28 @@ def observe_term(c):
     out = eng.get_output()
     n1 = len(out.data.value)
     n2 = len(eng.get_output().data.value)
+    first = [float(v) for v in out.t.value] + [float(v) for v in out.data.value]
     eng.finalize()
     eng.finalize()
-    return {"iterations": it, "complete": bool(done), "extra": extra, "ndata": [n1, n2]}
+    # a new set-up afterwards starts from a clean slate: the same script on the same object gives the same output again
+    eng.setup(script)
+    it2 = 0
+    while it2 < limit:
+        it2 += 1
+        if not eng.iterate():
+            break
+    out2 = eng.get_output()
+    second = [float(v) for v in out2.t.value] + [float(v) for v in out2.data.value]
+    eng.finalize()
+    same = it2 == it and len(first) == len(second) and all(a == b or (a != a and b != b) for a, b in zip(first, second))
+    return {"iterations": it, "complete": bool(done), "extra": extra, "ndata": [n1, n2], "clean_slate": bool(same)}
 
 
 def emit_term(c, o):
     fixed = c["engine"] != "gillespie"
     gc = "(%s, %s, %s)" % (g_float(c["dt"]), g_float(c["t_max"]), g_bool(fixed))
     if "iterations" in o:
-        go = "(Some (%s, %s, %s))" % (g_nat(o["iterations"]), g_bool(o["complete"]), g_bool((o["complete"] and any(o["extra"])) or o["ndata"][0] != o["ndata"][1]))
+        go = "(Some (%s, %s, %s))" % (g_nat(o["iterations"]), g_bool(o["complete"]), g_bool((o["complete"] and any(o["extra"])) or o["ndata"][0] != o["ndata"][1] or not o.get("clean_slate", True)))
     else:
         go = "None"
     return gc, go
@@ -290,6 +302,8 @@ def oracle_term(it):
             return False, name + " [%d iterations, complete=%r; expected %d]" % (o["iterations"], o["complete"], n)
     if o["complete"] and any(o["extra"]):
         return False, name + " [iterate() after completion reported 'unfinished']"
+    if not o.get("clean_slate", True):
+        return False, name + " [after finalize, a new set-up of the same script on the same object did not reproduce the run]"
     return True, name
 
 
